@@ -209,6 +209,39 @@ def s_fn_attr_promote(X, scale: float, k: int):
     return op.Add(y, op.Cast(k, to=1))
 
 
+# an attribute parameter promoted to a tensor operand (the converter emits a Constant named like the attribute, the
+# exporter must pick a fresh Python name for it) next to values that live only inside an If branch / a Loop body:
+# a seeded defect chose the fresh name without looking at names bound inside subgraphs (C13e)
+@script(default_opset=op)
+def s_fn_attr_promote_if(X, c, alpha: float):
+    y = op.Mul(X, alpha)
+    if c:
+        t = op.Add(y, 1.0)
+        z = op.Mul(t, t)
+    else:
+        z = op.Neg(y)
+    return z
+
+
+@script(default_opset=op)
+def s_fn_attr_promote_if2(X, c, alpha: float):
+    if c:
+        t = op.Add(X, 1.0)
+        z = op.Mul(t, alpha)
+    else:
+        z = op.Neg(X)
+    return z
+
+
+@script(default_opset=op)
+def s_fn_attr_promote_loop(X, N, alpha: float):
+    acc = op.Identity(X)
+    for i in range(N):
+        t = op.Add(acc, 1.0)
+        acc = op.Mul(t, alpha)
+    return acc
+
+
 @script(default_opset=op)
 def s_fn_attr_default(X, alpha: float = 0.25):
     return op.LeakyRelu(X, alpha=alpha)
@@ -292,6 +325,13 @@ _reg(s_fn_attr, [dict(X=x) for x in _X3], model=False, attrs=dict(alpha=2.0), in
      tags=("attr",))
 _reg(s_fn_attr_promote, [dict(X=x) for x in _X3], model=False, attrs=dict(scale=0.5, k=3), in_types=[_FT3],
      out_types=[_FT3], tags=("attr",))
+_BT = _t(TP.BOOL, [])
+_reg(s_fn_attr_promote_if, [dict(X=_X3[0], c=np.array(True)), dict(X=_X3[2], c=np.array(False)), dict(X=_X3[2], c=np.array(True))],
+     model=False, attrs=dict(alpha=2.0), in_types=[_FT3, _BT], out_types=[_FT3], tags=("attr", "if", "allnames"))
+_reg(s_fn_attr_promote_if2, [dict(X=_X3[0], c=np.array(True)), dict(X=_X3[2], c=np.array(False)), dict(X=_X3[2], c=np.array(True))],
+     model=False, attrs=dict(alpha=2.0), in_types=[_FT3, _BT], out_types=[_FT3], tags=("attr", "if", "allnames"))
+_reg(s_fn_attr_promote_loop, [dict(X=x, N=n) for x, n in zip(_X3, _N)], model=False, attrs=dict(alpha=0.5),
+     in_types=[_FT3, _t(TP.INT64, [])], out_types=[_FT3], tags=("attr", "for", "allnames"))
 _reg(s_fn_attr_default, [dict(X=x) for x in _X3], model=False, attrs=dict(), in_types=[_FT3], out_types=[_FT3],
      tags=("attr", "attr-default"))
 _reg(s_fn_attr_ints, [dict(X=m) for m in _M23], model=False, attrs=dict(perm=[1, 0]), in_types=[_t(TP.FLOAT, [2, 3])],
